@@ -70,6 +70,10 @@ func parseFloat(s []byte) float64 {
 func parseFloat32(s []byte) float32 {
 	f, err := strconv.ParseFloat(string(s), 32)
 	if err != nil {
+		if ne, ok := err.(*strconv.NumError); ok && ne.Err == strconv.ErrRange {
+			// A valid number which does not fit: ±Inf or 0, as returned.
+			return float32(f)
+		}
 		panic(err)
 	}
 	return float32(f)
